@@ -74,7 +74,7 @@ func sibling() *Machine {
 	if err != nil {
 		panic("rig: the bystander machine does not load: " + err.Error())
 	}
-	for k := 0; k < 48; k++ {
+	for k := 0; k < 160; k++ { // start-up, the interrupt and more than one pass through its loop
 		b.Step()
 	}
 	Siblings++
